@@ -28,6 +28,8 @@ EXTENDS Naturals, Sequences, FiniteSets, TLC, Json
 CONSTANTS Dom,      \* which slice of the case space Init enumerates
           Guard,    \* TRUE: clauses are asserted on clean cases only (defect classes documented apart)
           Only,     \* "" or a defect tag: Init keeps only cases carrying that tag (defect configs)
+          Legacy,   \* subset of {"kindderef","ovlset","nofunovl","selfmerge"}: statements of merger.py BEFORE the four fix
+                    \* commits, re-enabled in the model only (regression config Merge_defect.cfg); {} = the code as it is
           Emit
 
 B == BOOLEAN
@@ -340,21 +342,28 @@ Ovl ==            \* _merge_stubs_overloads: for function_name, overloads in lis
        ag' = [i \in 1..Len(ns) |-> Step("OvlItem", o, s, ns[i])] \o Rest
   /\ UC /\ Keep(<<heap, slot, exc, err, raised, derefs>>)
 
-OvlItem ==        \* obj.get_member(name).overloads = overloads ; del stubs.overloads[name]
-  /\ At1("OvlItem")
+Old(x) == x \in Legacy
+OvlItem ==        \* member = obj.get_member(name); if (not alias or resolved) and kind is FUNCTION: member.overloads = ...
+  /\ At1("OvlItem")               \* then del stubs.overloads[name]    (legacy "ovlset": assigned to whatever member there is)
   /\ LET o == Head1.o  s == Head1.s  n == Head1.n
          m == heap[o].mem[n]
          isal == IF m = Nil THEN FALSE ELSE heap[m].k = "alias"
          unres == isal /\ heap[m].tgt = "nil"
-         ok == IF isal THEN Resolvable(heap[m].tp) ELSE TRUE IN
-     /\ derefs' = IF unres THEN derefs \cup {[alias |-> n, site |-> "ovl", ok |-> ok]} ELSE derefs
+         ok == IF isal THEN Resolvable(heap[m].tp) ELSE TRUE
+         legacy == Old("ovlset")
+         e == IF isal /\ ok THEN TgtId[heap[m].tp] ELSE m IN
+     /\ derefs' = IF legacy /\ unres THEN derefs \cup {[alias |-> n, site |-> "ovl", ok |-> ok]} ELSE derefs
      /\ IF m = Nil                       \* KeyError suppressed
           THEN heap' = [heap EXCEPT ![s].ovd[n] = <<>>] /\ ag' = Rest /\ exc' = exc
-        ELSE IF ~ok                      \* Alias.overloads setter -> final_target -> AliasResolutionError, not caught here
+        ELSE IF ~legacy                  \* never dereferences, never raises, only functions receive overloads
+          THEN /\ heap' = IF ~unres /\ heap[e].k = "function"
+                            THEN [heap EXCEPT ![e].ovl = heap[s].ovd[n], ![s].ovd[n] = <<>>]
+                            ELSE [heap EXCEPT ![s].ovd[n] = <<>>]
+               /\ ag' = Rest /\ exc' = exc
+        ELSE IF ~ok                      \* legacy: Alias.overloads setter -> final_target -> AliasResolutionError, not caught
           THEN heap' = heap /\ exc' = TRUE /\ ag' = Unwind(Rest)
-        ELSE LET e == IF isal THEN TgtId[heap[m].tp] ELSE m
-                 h1 == IF isal THEN [heap EXCEPT ![m].tgt = heap[m].tp] ELSE heap IN
-             /\ heap' = [h1 EXCEPT ![e].ovl = heap[s].ovd[n], ![s].ovd[n] = <<>>]   \* whatever kind e has
+        ELSE LET h1 == IF isal THEN [heap EXCEPT ![m].tgt = heap[m].tp] ELSE heap IN
+             /\ heap' = [h1 EXCEPT ![e].ovl = heap[s].ovd[n], ![s].ovd[n] = <<>>]   \* legacy: whatever kind e has
              /\ ag' = Rest /\ exc' = exc
   /\ UC /\ Keep(<<slot, err, raised>>)
 
@@ -374,13 +383,16 @@ MemItem ==
          ok == IF isal THEN Resolvable(heap[om].tp) ELSE TRUE
          \* `if obj_member.is_alias and not obj_member.resolved: continue` comes first (fix d01b2c6): the kind test
          \* `obj_member.kind is not stub_member.kind` is only evaluated on objects and on already resolved aliases
-         tested == om # Nil /\ heap[sm].k # "alias" /\ ~unres
+         \* `if obj_member is stub_member: continue` (moved by a previous pass) comes before both
+         tested == /\ om # Nil /\ heap[sm].k # "alias"
+                   /\ (Old("selfmerge") \/ om # sm)
+                   /\ (Old("kindderef") \/ ~unres)
          e == IF isal /\ ok THEN TgtId[heap[om].tp] ELSE om IN
      /\ derefs' = IF tested /\ unres THEN derefs \cup {[alias |-> n, site |-> "kind", ok |-> ok]} ELSE derefs
      /\ IF om = Nil                      \* stub-only: stub_member.runtime = False; obj.set_member(name, stub_member)
           THEN /\ heap' = [heap EXCEPT ![sm].rt = FALSE, ![o].mem[n] = sm, ![o].ord = Append(@, n)]
                /\ ag' = Rest
-        ELSE IF ~tested \/ ~ok            \* imported stub object / unresolved runtime alias: continue
+        ELSE IF ~tested \/ ~ok            \* imported stub object / moved member / unresolved runtime alias: continue
           THEN heap' = heap /\ ag' = Rest
         ELSE LET h1 == IF unres THEN [heap EXCEPT ![om].tgt = heap[om].tp] ELSE heap IN
              /\ heap' = h1
@@ -396,7 +408,9 @@ Fun ==            \* _merge_function_stubs
   /\ LET o == Head1.o  s == Head1.s
          one(x) == IF heap[s].par[x] # "absent" /\ heap[o].par[x] # "absent" THEN heap[s].par[x] ELSE heap[o].par[x] IN
        heap' = [heap EXCEPT ![o].doc = DocOf(o, s), ![o].par = [p |-> one("p"), q |-> one("q"), r |-> one("r")],
-                            ![o].ret = heap[s].ret]
+                            ![o].ret = heap[s].ret,
+                            \* `if stubs.overloads: function.overloads = stubs.overloads` (absent in legacy "nofunovl")
+                            ![o].ovl = IF heap[s].ovl # <<>> /\ ~Old("nofunovl") THEN heap[s].ovl ELSE heap[o].ovl]
   /\ Enter("fun", Head1.s)
   /\ ag' = Rest /\ UCx /\ Keep(<<slot, exc, err, raised, derefs>>)
 
@@ -428,15 +442,18 @@ Next == \/ LoadFirst \/ LoadSecond \/ CatchSet \/ MergeTop \/ CatchTop \/ Catch 
 \* ---- case space ----------------------------------------------------------------------------------
 \* classes of cells on which the unchanged code is known to break a clause (documented, kept out of
 \* the clean domain): see findings.d/C19.json
-CellTags(c) ==
-  LET both == c.rk = "cls" /\ c.sk = "cls" IN
-  (IF (c.rk \in {"al_fun", "al_cls", "al_att"} /\ c.sk = "ovo") \/ (both /\ c.irk = "al_fun" /\ c.isk = "ovo")
-     THEN {"alias"} ELSE {})        \* only Alias.overloads (OvlItem) still dereferences
-  \cup (IF (c.rk = "al_ext" /\ c.sk = "ovo") \/ (both /\ c.irk = "al_ext" /\ c.isk = "ovo") THEN {"raise"} ELSE {})
-  \cup (IF c.rk = "fun" /\ c.sk = "fun" /\ c.sov THEN {"sov"} ELSE {})
-  \cup (IF (c.sk = "ovo" /\ c.rk \in {"cls", "att"}) \/ (both /\ c.isk = "ovo" /\ c.irk \in {"cls", "att"})
+CellTags(c) ==       \* all empty for Legacy = {}: the four fix commits closed every class
+  LET both == c.rk = "cls" /\ c.sk = "cls"
+      live == {"cls", "fun", "att"} IN
+  (IF Old("kindderef") /\ ((c.rk \in {"al_fun", "al_cls", "al_att"} /\ c.sk \in live) \/ (both /\ c.irk = "al_fun" /\ c.isk \in live))
+     THEN {"alias"} ELSE {})         \* `obj_member.kind` on an unresolved runtime alias
+  \cup (IF Old("ovlset") /\ ((c.rk \in {"al_fun", "al_cls", "al_att"} /\ c.sk = "ovo") \/ (both /\ c.irk = "al_fun" /\ c.isk = "ovo"))
+          THEN {"aliaso"} ELSE {})    \* Alias.overloads setter on a resolvable alias
+  \cup (IF Old("ovlset") /\ ((c.rk = "al_ext" /\ c.sk = "ovo") \/ (both /\ c.irk = "al_ext" /\ c.isk = "ovo")) THEN {"raise"} ELSE {})
+  \cup (IF Old("nofunovl") /\ c.rk = "fun" /\ c.sk = "fun" /\ c.sov THEN {"sov"} ELSE {})
+  \cup (IF Old("ovlset") /\ ((c.sk = "ovo" /\ c.rk \in {"cls", "att"}) \/ (both /\ c.isk = "ovo" /\ c.irk \in {"cls", "att"}))
           THEN {"ovomis"} ELSE {})
-  \cup (IF c.rk = "abs" /\ c.sk = "cls" /\ c.isk = "ovo" THEN {"ovoself"} ELSE {})
+  \cup (IF Old("selfmerge") /\ c.rk = "abs" /\ c.sk = "cls" /\ c.isk = "ovo" THEN {"ovoself"} ELSE {})
 Tags == CellTags(cellA) \cup CellTags(cellB)
 CleanCase == Tags = {}
 
@@ -449,6 +466,7 @@ CtxCells == {c \in KindCells :
    \/ c.rk = "fun" /\ c.sk = "ovo"
    \/ c.rk = "al_fun" /\ c.sk = "fun"}
 Ctx4 == {c \in CtxCells : c.rk \in {"fun", "al_ext"} \/ (c.rk = "abs" /\ c.sk = "cls")}
+Ctx6 == {c \in CtxCells : c.rk # "al_fun"}
 TopKinds == {c \in KindCells : c.irk = "abs" /\ c.isk = "abs"}
 \* the two names of a scope are declared a then b: every (cell, context) pair is taken in BOTH orders
 BothOrders(X, Y) == (cellA \in X /\ cellB \in Y) \/ (cellA \in Y /\ cellB \in X)
@@ -461,7 +479,7 @@ QuickCells == {c \in FullCells : Groups(c) <= 1}
 Init ==
   /\ CASE Dom = "single" -> cellA \in FullCells /\ cellB = AbsCell /\ mdoc = "both"
        [] Dom = "defects" -> /\ cellA \in {CHOOSE c \in FullCells : CellTags(c) = {t} /\ c.rk # "cls" :
-                                               t \in {"alias", "raise", "sov", "ovomis", "ovoself"}}
+                                               t \in {"alias", "aliaso", "raise", "sov", "ovomis", "ovoself"}}
                              /\ cellB = AbsCell /\ mdoc = "both"
        [] Dom = "pair"   -> BothOrders(KindCells, CtxCells) /\ mdoc = "both"
        [] Dom = "mdoc"   -> cellA = FunFun /\ cellB \in {AbsCell, FunFun} /\ mdoc \in {"both", "rt", "st", "none"}
@@ -469,8 +487,9 @@ Init ==
                             \/ BothOrders(TopKinds, Ctx4) /\ mdoc = "both"
                             \/ cellA \in KindCells \ TopKinds /\ cellB \in Ctx4 /\ mdoc = "both"
                             \/ cellA = FunFun /\ cellB = AbsCell /\ mdoc \in {"rt", "st", "none"}
-       [] Dom = "wide"   -> \/ BothOrders(FullCells, CtxCells) /\ mdoc = "both"
-                            \/ cellA = FunFun /\ cellB \in CtxCells /\ mdoc \in {"rt", "st", "none"}
+       [] Dom = "wide"   -> \/ cellA \in FullCells /\ cellB \in Ctx6 /\ mdoc = "both"
+                            \/ BothOrders(KindCells, Ctx6) /\ mdoc = "both"
+                            \/ cellA = FunFun /\ cellB \in Ctx6 /\ mdoc \in {"rt", "st", "none"}
        [] OTHER          -> cellA \in KindCells /\ cellB \in KindCells /\ mdoc = "both"    \* "kinds"
   /\ (Only # "" => Only \in Tags)
   /\ preR = TreeOf(InitHeap(cellA, cellB, mdoc), ModR)
@@ -498,10 +517,11 @@ SameForAllOrdersAndPlacements ==
   Done /\ Asserted => \A i, j \in 1..Len(results) :
      /\ results[i].tree = results[j].tree /\ results[i].tgt = results[j].tgt /\ results[i].err = results[j].err
 \* within one run exceptions never escape the handlers the agenda holds
-\* the documented defect classes: with these "invariants" TLC must REPORT a violation (Merge_defect.cfg, -continue),
-\* i.e. the model exhibits each defect on a case carrying exactly that tag
+\* regression config (Merge_defect.cfg: Legacy = all four, guard off, -continue): with the statements of merger.py from
+\* before the fix commits the model must exhibit each old defect, i.e. TLC must REPORT these "invariants" violated
 Shows(tag, f) == ~(Done /\ Tags = {tag} /\ \E i \in 1..Len(results) : ~results[i].cl[f])
 DefectAliasResolved     == Shows("alias", "noresolve")
+DefectOverloadsResolveAlias == Shows("aliaso", "noresolve")
 DefectRaises            == Shows("raise", "noraise")
 DefectStubOverloadsLost == Shows("sov", "types")
 DefectOverloadsOnNonFunction == Shows("ovomis", "untouched")
